@@ -5,6 +5,7 @@ package main
 import (
 	"encoding/json"
 	"fmt"
+	"io"
 	mrand "math/rand"
 	"regexp"
 	"runtime/debug"
@@ -22,6 +23,13 @@ type c12Case struct {
 	SinkLimit int64                `json:"sink_limit"` // -1: sink never fails
 	Short     bool                 `json:"short_write,omitempty"`
 	Faults    map[string]gen.Fault `json:"producer_faults,omitempty"`
+	// Transient: the destination refuses exactly one write (the one crossing SinkLimit) and accepts everything after it
+	Transient bool `json:"transient_sink_fault,omitempty"`
+	// Primed: the message has been rendered once (to a healthy sink) before the judged render
+	Primed bool `json:"rendered_once_before,omitempty"`
+	// InvalidConfig: the spec carries a caller-defined boundary mime/multipart refuses; whether such a render fails is not
+	// stated by the property, but it must not panic and the count must be exact whatever it returns
+	InvalidConfig bool `json:"invalid_config,omitempty"`
 }
 
 var goMailFrame = regexp.MustCompile(`github\.com/wneessen/go-mail\.([^\s(]*(?:\([^)]*\))?[^\s(]*)\(`)
@@ -65,7 +73,13 @@ func c12Render(c c12Case) (c12Outcome, error) {
 	if err != nil {
 		return c12Outcome{}, err
 	}
-	o := c12Outcome{sink: &faultio.Sink{Limit: c.SinkLimit, Short: c.Short}}
+	o := c12Outcome{sink: &faultio.Sink{Limit: c.SinkLimit, Short: c.Short, Transient: c.Transient}}
+	if c.Primed {
+		func() {
+			defer func() { _ = recover() }()
+			_, _ = m.WriteTo(io.Discard)
+		}()
+	}
 	func() {
 		defer func() {
 			if p := recover(); p != nil {
@@ -112,6 +126,8 @@ func runC12Case(r *ev.Run, c c12Case) (accepted int64, failed bool) {
 		faultKind = "sink+producer"
 	case len(c.Faults) > 0:
 		faultKind = "producer"
+	case c.SinkLimit >= 0 && c.Transient:
+		faultKind = "transient-sink"
 	case c.SinkLimit >= 0 && c.Short:
 		faultKind = "short-write"
 	case c.SinkLimit >= 0:
@@ -130,9 +146,20 @@ func runC12Case(r *ev.Run, c c12Case) (accepted int64, failed bool) {
 				ek = ":producer-error=" + f.ErrKind
 			}
 		}
+		if c.Transient {
+			ek = fmt.Sprintf(":rendered-before=%t", c.Primed)
+		}
 		viol("silent-success:"+faultKind+ek, fmt.Sprintf("WriteTo returned nil although a fault was injected (%s%s; sink refused a write: %t)", faultKind, ek, o.sink.Failed), nil)
 	}
-	if !faulty && o.err != nil {
+	if c.InvalidConfig {
+		r.Count("renders_invalid_boundary", 1)
+		if o.err != nil {
+			r.Count("invalid_boundary_reported_as_error", 1)
+		} else {
+			r.Seen("invalid_boundary_rendered_without_error", fmt.Sprintf("%s|%q", c.Spec.Shape(), c.Spec.Boundary))
+		}
+	}
+	if !faulty && o.err != nil && !c.InvalidConfig {
 		viol("error-without-fault", "WriteTo failed on a fault-free render: "+o.err.Error(), nil)
 	}
 	if o.n != o.sink.Accepted {
@@ -248,9 +275,9 @@ func producers(s *gen.MsgSpec) []string {
 
 func runC12(r *ev.Run, rep *ev.ReplayDoc) ev.Summary {
 	sum := ev.Summary{
-		Rule: "for every shape (enumerated parts x embeds x attachments x message encoding incl. 7bit, S/MIME shapes, random shapes): a fault-free render, then EVERY k in [0, len(output)) with a sink that accepts exactly k bytes and fails afterwards, short-write sinks at sampled k, every producer failing before/inside/after its data, and producer+sink fault pairs. non-trivial = a fault was injected; distinct by (shape, fault)",
+		Rule: "for every shape (enumerated parts x embeds x attachments x message encoding incl. 7bit, S/MIME shapes, random shapes): a fault-free render, then EVERY k in [0, len(output)) with a sink that accepts exactly k bytes and fails afterwards, short-write sinks at sampled k, a destination that refuses exactly one write at every k and accepts everything after it (on a fresh message and on one that has been rendered before), every producer failing before/inside/after its data, and producer+sink fault pairs; multipart shapes also with caller-defined boundaries that mime/multipart refuses (only no-panic and the exact count are judged there). non-trivial = a fault was injected; distinct by (shape, fault)",
 		Assumptions: []string{
-			"a sink fault is persistent (every write after the first refused one fails too)",
+			"a sink fault is persistent (every write after the first refused one fails too) except in the transient-sink group, where only the write crossing k is refused",
 			"the message is rebuilt for every fault so that a failed render cannot influence the next case (repeatability after a failed render is C11)",
 		},
 		Floors:     []ev.Floor{{Counter: "renders_sink", Min: 5000}, {Counter: "renders_producer", Min: 50}, {Counter: "errors_reported", Min: 5000}},
@@ -284,6 +311,13 @@ func runC12(r *ev.Run, rep *ev.ReplayDoc) ev.Summary {
 		for k := int64(0); k < L+slack; k++ {
 			jobs = append(jobs, job{c12Case{Spec: s, SinkLimit: k}})
 		}
+		// a destination that refuses one write and then works again, at every k; on a fresh message and on one that
+		// has been rendered before (boundaries and file headers are cached then)
+		if s.SMIME == "" {
+			for k := int64(0); k < L; k++ {
+				jobs = append(jobs, job{c12Case{Spec: s, SinkLimit: k, Transient: true, Primed: k%2 == 0}})
+			}
+		}
 		rng := r.Rng("c12short", si)
 		for j := 0; j < 12; j++ {
 			jobs = append(jobs, job{c12Case{Spec: s, SinkLimit: rng.Int63n(L + 1), Short: true}})
@@ -300,6 +334,14 @@ func runC12(r *ev.Run, rep *ev.ReplayDoc) ev.Summary {
 				}
 			}
 		}
+		if len(s.Parts)+len(s.Embeds)+len(s.Attach) >= 2 && s.SMIME == "" {
+			for bi, bad := range []string{"quote\"inside", strings.Repeat("x", 71), "trailing blank ", "ctl\x01char"} {
+				bs := s
+				bs.Boundary = bad
+				jobs = append(jobs, job{c12Case{Spec: bs, SinkLimit: -1, InvalidConfig: true}})
+				jobs = append(jobs, job{c12Case{Spec: bs, SinkLimit: rng.Int63n(L + 1), InvalidConfig: true, Short: bi%2 == 0}})
+			}
+		}
 		if si%7 == 0 {
 			r.Sample(map[string]any{"shape": s.Shape(), "output_len": L, "sink_offsets_enumerated": L + slack})
 		}
@@ -313,7 +355,7 @@ func runC12(r *ev.Run, rep *ev.ReplayDoc) ev.Summary {
 		for k, f := range c.Faults {
 			fs += fmt.Sprintf("%s@%d%s", k, f.After, f.ErrKind)
 		}
-		r.Eval(fmt.Sprintf("%s|%d|%t|%s", c.Spec.ID, c.SinkLimit, c.Short, fs), true)
+		r.Eval(fmt.Sprintf("%s|%d|%t|%s|%t%.8q|%t%t", c.Spec.ID, c.SinkLimit, c.Short, fs, c.InvalidConfig, c.Spec.Boundary, c.Transient, c.Primed), true)
 	})
 	return sum
 }
